@@ -117,6 +117,9 @@ type Config struct {
 	// an id such as 6 (0x6) is, in hexadecimal, a prefix of the ids 0x65 and 0x66 of the two
 	// chains every world has
 	ExtraChains []uint64 `json:",omitempty"`
+	// HistoricalEntries > 0: the dogfood module's number of retained historical headers (small
+	// values make the pruning run in every block)
+	HistoricalEntries uint32 `json:",omitempty"`
 }
 
 // SlashingCfg sets the x/slashing parameters, so that downtime (validators missing from the
@@ -531,8 +534,12 @@ func BuildWorld(cfg Config) (*World, error) {
 	for _, i := range cfg.DogfoodAssets {
 		dfAssets = append(dfAssets, w.AssetIDs[i])
 	}
+	hist := uint32(dogfoodtypes.DefaultHistoricalEntries)
+	if cfg.HistoricalEntries > 0 {
+		hist = cfg.HistoricalEntries
+	}
 	dfParams := dogfoodtypes.NewParams(cfg.EpochsUntilUnbonded, cfg.DogfoodEpoch, cfg.MaxValidators,
-		dogfoodtypes.DefaultHistoricalEntries, dfAssets, math.NewInt(cfg.MinSelfDelegation))
+		hist, dfAssets, math.NewInt(cfg.MinSelfDelegation))
 	dogfoodGenesis := dogfoodtypes.NewGenesis(dfParams, valset,
 		[]dogfoodtypes.EpochToOperatorAddrs{}, []dogfoodtypes.EpochToConsensusAddrs{},
 		[]dogfoodtypes.EpochToUndelegationRecordKeys{}, math.NewInt(totalPower))
